@@ -13,6 +13,6 @@ def copyFresh : Bool := true
 
 /-- statements of `spox._adapt.adapt_inline` after the no-conversion early returns, as far as
     `node.model` is concerned -/
-def swapIR : List SStmt := [.other, .other, .other, .other, .other, .other, .other, .saveBase, .tryFinally [.setTarget, .emit] [.restoreBase], .other, .other, .other]
+def swapIR : List SStmt := [.other, .other, .other, .other, .other, .saveBase, .tryFinally [.setTarget, .emit] [.restoreBase], .other, .other]
 
 end Generated.InlineFacts
